@@ -403,26 +403,26 @@ func fixTransferEncoding(requestMethod string, header Header) ([]string, error) 
 
 	delete(header, "Transfer-Encoding")
 
-	encodings := strings.Split(raw[0], ",")
+	// Every Transfer-Encoding line counts, not only the first one: a second
+	// line (or a coding after "identity") that a backend honours but BFE
+	// ignores frames the message differently for the two (request smuggling).
+	encodings := strings.Split(strings.Join(raw, ","), ",")
 	te := make([]string, 0, len(encodings))
-	// TODO: Even though we only support "identity" and "chunked"
-	// encodings, the loop below is designed with foresight. One
-	// invariant that must be maintained is that, if present,
-	// chunked encoding must always come first.
+	identity := false
 	for _, encoding := range encodings {
 		encoding = strings.ToLower(strings.TrimSpace(encoding))
-		// "identity" encoding is not recorded
-		if encoding == "identity" {
-			break
-		}
-		if encoding != "chunked" {
+		switch encoding {
+		case "identity":
+			// "identity" encoding is not recorded
+			identity = true
+		case "chunked":
+			te = append(te, encoding)
+		default:
 			return nil, &badStringError{"unsupported transfer encoding", encoding}
 		}
-		te = te[0 : len(te)+1]
-		te[len(te)-1] = encoding
 	}
-	if len(te) > 1 {
-		return nil, &badStringError{"too many transfer encodings", strings.Join(te, ",")}
+	if len(te) > 1 || (identity && len(te) > 0) {
+		return nil, &badStringError{"too many transfer encodings", strings.Join(encodings, ",")}
 	}
 	if len(te) > 0 {
 		// Chunked encoding trumps Content-Length. See RFC 2616
